@@ -296,6 +296,18 @@ pub fn candidates(c: &Case) -> Vec<i128> {
     for v in [0, S6, -S6, 10 * S6, -10 * S6, S6 / 2, -S6 / 2, S6 / 10, 250_000, 200_000, 990_000, 9_900_000, 9_990_000] {
         s.insert(v);
     }
+    if let (Some(m), Some(l), Some(h)) = (c.mult, lo6, hi6) {
+        // a fractional multipleOf over a narrow window: every tenth and every hundredth inside it
+        if m % 1000 != 0 && h >= l && h - l <= 3 * S6 {
+            for step in [S6 / 10, S6 / 100] {
+                let mut x = l.div_euclid(step) * step;
+                while x <= h + step {
+                    s.insert(x);
+                    x += step;
+                }
+            }
+        }
+    }
     if let Some(m) = c.mult {
         let st = m as i128 * S3;
         let base = lo6.or(hi6).unwrap_or(0);
@@ -531,6 +543,18 @@ pub fn grid(tier: Tier) -> Vec<Case> {
             }
         }
     }
+    // (10) multipleOf with three fraction digits (0.125, 0.025, 0.004 ...): literals written with one or two fraction
+    //      digits need their own divisor (coef / gcd(coef, 10^(3-k)))
+    for &m in &[125i64, 25, 75, 4, 12, 8, 375, 1, 5, 2] {
+        for lo in [-2000i64, -1000, -500, -130, 0, 40, 500, 1000, 7000] {
+            for span in [100i64, 500, 1000, 2500] {
+                let pat = (lo / 10 + span / 100 + m).rem_euclid(4);
+                v.push(Case { integer: false, lo: Some((lo, pat & 1 == 1)), hi: Some((lo + span, pat & 2 == 2)), mult: Some(m), lo2: None, hi2: None, big: 0 });
+            }
+        }
+        v.push(Case { integer: false, lo: None, hi: None, mult: Some(m), lo2: None, hi2: None, big: 0 });
+        v.push(Case { integer: false, lo: Some((-450, false)), hi: None, mult: Some(m), lo2: None, hi2: None, big: 0 });
+    }
     // (6) both keywords on one side (minimum + exclusiveMinimum, maximum + exclusiveMaximum): equal, and off by one either way
     let wb: i64 = tier.pick(30, 120);
     for b in -wb..=wb {
@@ -574,7 +598,7 @@ impl Prop for C08 {
     fn rule(&self) -> String {
         "grid: (1) every integer pair lo<=hi in [-W,W]^2 (quick W=120, thorough 400) with a rotating inclusive/exclusive pattern, (2) half-open and \
          unbounded schemas, (3) number and integer schemas over a structured set of decimal bounds (<= 3 fractional digits: around 0, +-1, equal \
-         integer parts, equal prefixes, trailing zeros, 9-runs), (4) bounds at 10^e-1, 10^e, 10^e+1 for e <= 15, (9) multipleOf in {0.1,0.01,0.25,0.5,1.25,1.5,2.5} against decimal windows of width 0..0.3 on a 0.05 raster and against integer windows under integer schemas, (8) number schemas with both bounds inside one integer part: every upper bound in thousandths up to +0.42 against lower bounds on a 0.05 (thorough 0.01) raster, some mirrored to negative, (7) bounds m*10^e for m in {1,2,5,9}, e in {12,15..20,22} \
+         integer parts, equal prefixes, trailing zeros, 9-runs), (4) bounds at 10^e-1, 10^e, 10^e+1 for e <= 15, (10) multipleOf with three fraction digits {0.125,0.025,0.075,0.004,0.012,0.008,0.375,0.001,0.005,0.002} over windows of width 0.1..2.5 with every tenth and hundredth inside as literal, (9) multipleOf in {0.1,0.01,0.25,0.5,1.25,1.5,2.5} against decimal windows of width 0..0.3 on a 0.05 raster and against integer windows under integer schemas, (8) number schemas with both bounds inside one integer part: every upper bound in thousandths up to +0.42 against lower bounds on a 0.05 (thorough 0.01) raster, some mirrored to negative, (7) bounds m*10^e for m in {1,2,5,9}, e in {12,15..20,22} \
          (up to and beyond 2^63; literals also around +-2^53, 2^63, 2^64), (5) multipleOf in {1,2,3,5,7,10,25,\
          100,0.5,0.1,0.25,0.01,1.5} crossed with windows; plus random bounds. Literals per schema: every integer in/around small windows, bound \
          +-10^-k (k<=6), digit-count neighbours, each re-spelt with 1-2 trailing zeros. evaluation = one literal verdict (validate_tokens(text+EOS)) \
